@@ -59,6 +59,20 @@ class SessionModel(object):
             return ('locks',)
         if k == 'maxchunk':
             return ('any',)
+        if k == 'ss_create':
+            self.pending_ss = op
+            return ('value', None)
+        if k == 'ss_consume':
+            cop = getattr(self, 'pending_ss', None)
+            self.pending_ss = None
+            if cop is None:
+                return ('value', [])
+            if not self.connected:
+                return ('exc', ('AdbConnectionError',), None)
+            ps = shell_payloads(d, cop['cmd'])
+            if cop.get('decode', True):
+                ps = [p.decode('utf8', 'backslashreplace') for p in ps]
+            return ('value', ps)
         path = op.get('path')
         if k in ('list', 'stat', 'pull', 'push') and not path:
             return ('exc', ('DevicePathInvalidError',), None)
